@@ -22,10 +22,16 @@ RULES = {
     "R09.2": "ROUTER send: lookup by popped first frame; write only on hit; miss / bad identity -> Err, no write",
     "R09.3": "identity provenance: handshake -> table key -> queue key (C04 rules re-evaluated)",
     "R09.4": "announced identity = configured option (C01 R01.7 re-evaluated)",
+    "R09.F": "foundation clauses re-evaluated as necessary conditions: " + ", ".join(['decoder']),
 }
 
 
+DEPENDS = ['decoder']     # foundation groups re-evaluated as necessary conditions (rules/found.py)
+
+
 def run(ctx, f, rep):
+    from . import found
+    found.import_groups(ctx, f, rep, 'C09', DEPENDS)
     co = socket_coroutine(f, "SocketRecv", "recv", "RouterSocket")
     if co is None:
         rep.bad("R09.1", "R09.1|anchor", "RouterSocket::recv not found (anchor-missing)")
@@ -96,8 +102,9 @@ def run(ctx, f, rep):
     c04.check_identity(f, sub)
     c04.check_gate(f, sub)
     c04.check_registration(f, sub)
+    c04.check_ready(f, sub)
     for o in sub.obls:
-        if o.rule in ("R04.3", "R04.4") or "identity-provenance" in o.key or "registration-callers" in o.key:
+        if o.rule in ("R04.3", "R04.4") or "identity-provenance" in o.key or "registration-callers" in o.key or "|ready|identity-" in o.key:
             (rep.ok if o.ok else rep.bad)("R09.3", o.key.replace(o.rule, "R09.3", 1), o.what, o.loc, o.detail)
     sub = Report("C09", rep.config)
     c01.check_ready(f, sub)
